@@ -1,5 +1,6 @@
 import Ktm.Results
 import Ktm.Track
+import Ktm.NanEpoch
 /-! # C18 — metric bookkeeping and result conversion compute the documented aggregates
 
 Model: `Metrics.update / mean / bestValue / bestStep / history` (`MetricHistory`), values are NaN or
@@ -78,6 +79,16 @@ theorem report_is_per_metric (infer : String → Option Bool) (o : Track.Obj) (s
     (m ∉ kvs.map (·.1) → Track.lookup (Track.report infer o t step kvs) m = Track.lookup t m) ∧
     (∀ v, (m, v) ∈ kvs → Track.lookup (Track.report infer o t step kvs) m = some (Track.into infer o step m (Track.lookup t m) v)) :=
   Track.report_one_metric infer o step kvs hnd t m
+
+/-- an execution whose objective diverges to NaN at some epoch: a NaN epoch is never the best one — when the first epoch is a number
+the chosen epoch is the first that attains the best value among the numeric epochs (values framed so that smaller is better; `none` = NaN) -/
+theorem nan_epoch_is_never_best (m : Int) (vs : List (Option Int)) :
+    ∃ i m', NanEpoch.bestEpoch (some m :: vs) = some (i, some m') ∧ NanEpoch.FirstNumMin (some m :: vs) i m' :=
+  NanEpoch.best_epoch_ignores_nan m vs
+
+/-- … and a NaN at the very first epoch stays (nothing compares better than NaN): the execution's objective is NaN -/
+theorem nan_first_epoch_stays (vs : List (Option Int)) : NanEpoch.bestEpoch (none :: vs) = some (0, none) :=
+  NanEpoch.nan_first_stays vs
 
 /-- non-vacuity: best of means vs mean of bests differ on [[3,1],[1,3]]: mean of bests is 1 -/
 example : (listObjective true [[3, 1], [1, 3]]).isSome ∧ Results.bestValue true [3, 1] = some 1 ∧ Results.bestValue true [1, 3] = some 1 := by decide
